@@ -143,6 +143,53 @@ var c11Edits = []c11Edit{
 		insertStmt(c, m, &wstmt{k: "raw", name: "var zz_t: NoType_zz;"})
 		return "NoType_zz", true
 	}},
+	{rule: "undeclared-type-texture-prefix", apply: func(c *ctx, m *wmodule) (string, bool) {
+		// a type name that merely starts like the predeclared texture types
+		n := c.pick("texture_zz", "texture_2d_zz", "texturezz")
+		insertStmt(c, m, &wstmt{k: "raw", name: c.pick("var zz_t: "+n+";", "let zz_t: "+n+" = 1u;")})
+		return n, true
+	}},
+	{rule: "undeclared-identifier-array-size", apply: func(c *ctx, m *wmodule) (string, bool) {
+		insertStmt(c, m, &wstmt{k: "raw", name: "var zz_a: array<u32, undeclared_zz>;"})
+		return "undeclared_zz", true
+	}},
+	{rule: "const-assert-false-later-constant", apply: func(c *ctx, m *wmodule) (string, bool) {
+		// the constant the assertion reads is declared after the function (module scope has no declaration order)
+		insertStmt(c, m, &wstmt{k: "raw", name: "const_assert zz_later > 5u;"})
+		m.consts = append(m.consts, &wstmt{k: "const", name: "zz_later", ty: tU32, e: &wexpr{k: "lit", ty: tU32, bits: 3, konst: true}})
+		return "const_assert", true
+	}},
+	{rule: "call-arg-type-same-shape", apply: func(c *ctx, m *wmodule) (string, bool) {
+		// an argument of the same shape but another component type: vec3<i32> for vec3<u32>, i32 for u32 (run-time values)
+		p := randSlot(c, m, func(e *wexpr) bool {
+			if e.k != "callfn" {
+				return false
+			}
+			for _, a := range e.args {
+				if a.ty != nil && a.ty.isInt() && a.k != "addr" {
+					return true
+				}
+			}
+			return false
+		})
+		if p == nil {
+			return "", false
+		}
+		cp := **p
+		cp.args = append([]*wexpr{}, cp.args...)
+		for i, a := range cp.args {
+			if a.ty != nil && a.ty.isInt() && a.k != "addr" {
+				other := tI32
+				if a.ty.scalarOf().k == "i32" {
+					other = tU32
+				}
+				cp.args[i] = &wexpr{k: "bitcast", ty: a.ty.withScalar(other), args: []*wexpr{a}}
+				break
+			}
+		}
+		*p = &cp
+		return cp.name + "(", true
+	}},
 	{rule: "undeclared-member", apply: func(c *ctx, m *wmodule) (string, bool) {
 		p := randSlot(c, m, func(e *wexpr) bool { return e.k == "field" })
 		if p == nil {
